@@ -1,0 +1,34 @@
+//go:build verif
+
+// Package verifhook provides observation/rendezvous points for the external
+// verification harness. With the "verif" build tag a single process-wide
+// handler receives every Point call; the handler may record the call and may
+// block the calling goroutine (rendezvous). Points are placed between lock
+// regions, never inside one.
+package verifhook
+
+import "sync/atomic"
+
+// Enabled reports whether the verification hooks are compiled in.
+const Enabled = true
+
+// Handler receives the name of the point and its arguments.
+type Handler func(name string, args ...any)
+
+var handler atomic.Pointer[Handler]
+
+// Set installs the process-wide handler (nil removes it).
+func Set(h Handler) {
+	if h == nil {
+		handler.Store(nil)
+		return
+	}
+	handler.Store(&h)
+}
+
+// Point calls the installed handler, if any.
+func Point(name string, args ...any) {
+	if h := handler.Load(); h != nil {
+		(*h)(name, args...)
+	}
+}
